@@ -1,5 +1,8 @@
 import CLModel.Proofs.Scalar
 import CLModel.Proofs.FourSq
+import Mathlib.Data.ZMod.Basic
+import Mathlib.GroupTheory.OrderOfElement
+import Mathlib.Algebra.Group.Hom.Defs
 /-!
 # C19 — Group-scalar arithmetic, pairing wrappers and four-square helper are exact
 
@@ -246,5 +249,66 @@ theorem legendre_skip_safe (x y z : ℕ) : isSum3 (x * x + y * y + z * z) = true
   isSum3_of_sum x y z
 
 example : isSum3 7 = false ∧ isSum3 28 = false ∧ isSum3 6 = true := by decide
+
+section exponent_form
+
+/-! ## exponent form is faithful
+
+The registry / witness / non-revocation models compute with *exponents* (`F = ZMod r`) instead
+of group elements.  The two theorems below are the transfer principle that justifies it, for any
+three commutative groups with a map that is additive in each argument (no idealisation: the
+hypotheses are the bilinearity equations, `r` prime, `r • gt = 0`, `gt ≠ 0`). -/
+
+/-- bilinearity in exponent form: `e(a·P, b·Q) = (a·b)·e(P, Q)` -/
+theorem pairing_exponent_form {G1 G2 GT : Type} [AddCommGroup G1] [AddCommGroup G2]
+    [AddCommGroup GT] (e : G1 → G2 → GT)
+    (hl : ∀ a b c, e (a + b) c = e a c + e b c) (hr : ∀ a c d, e a (c + d) = e a c + e a d)
+    (P : G1) (Q : G2) (a b : ℤ) : e (a • P) (b • Q) = (a * b) • e P Q := by
+  let fl (c : G2) : G1 →+ GT := AddMonoidHom.mk' (fun x => e x c) (fun x y => hl x y c)
+  let fr (x : G1) : G2 →+ GT := AddMonoidHom.mk' (fun c => e x c) (fun c d => hr x c d)
+  have h1 : e (a • P) (b • Q) = a • e P (b • Q) := map_zsmul (fl (b • Q)) a P
+  have h2 : e P (b • Q) = b • e P Q := map_zsmul (fr P) b Q
+  rw [h1, h2, mul_smul]
+
+/-- in a group element of prime order `r`, multiples are equal iff the exponents are equal
+modulo `r`: an equation between exponents (what the model proves or refutes) holds iff the
+equation between the group elements does -/
+theorem exponent_form_faithful {GT : Type} [AddCommGroup GT] (r : ℕ) [hr : Fact r.Prime]
+    (gt : GT) (h0 : gt ≠ 0) (hord : r • gt = 0) (a b : ℤ) :
+    a • gt = b • gt ↔ ((a : ZMod r) = (b : ZMod r)) := by
+  have hdvd : addOrderOf gt ∣ r := addOrderOf_dvd_of_nsmul_eq_zero hord
+  have hne1 : addOrderOf gt ≠ 1 := by
+    intro h; exact h0 (AddMonoid.addOrderOf_eq_one_iff.mp h)
+  have hor : addOrderOf gt = r := by
+    rcases (Nat.dvd_prime hr.out).mp hdvd with h | h
+    · exact absurd h hne1
+    · exact h
+  rw [ZMod.intCast_eq_intCast_iff_dvd_sub, ← hor]
+  constructor
+  · intro h
+    have : (b - a) • gt = 0 := by rw [sub_smul, h, sub_self]
+    exact (addOrderOf_dvd_iff_zsmul_eq_zero).mpr this
+  · intro h
+    have : (b - a) • gt = 0 := (addOrderOf_dvd_iff_zsmul_eq_zero).mp h
+    rw [sub_smul, sub_eq_zero] at this
+    exact this.symm
+
+/-- a pairing equation between multiples of fixed points holds iff it holds for the exponents:
+`e(a·P, b·Q) = e(c·P, d·Q) ⟺ a·b ≡ c·d (mod r)`, for a non-degenerate pair `(P, Q)` of order `r` -/
+theorem pairing_equation_in_exponents {G1 G2 GT : Type} [AddCommGroup G1] [AddCommGroup G2]
+    [AddCommGroup GT] (e : G1 → G2 → GT)
+    (hl : ∀ a b c, e (a + b) c = e a c + e b c) (hrr : ∀ a c d, e a (c + d) = e a c + e a d)
+    (r : ℕ) [Fact r.Prime] (P : G1) (Q : G2) (hnd : e P Q ≠ 0) (hord : r • e P Q = 0)
+    (a b c d : ℤ) :
+    e (a • P) (b • Q) = e (c • P) (d • Q) ↔ ((a * b : ℤ) : ZMod r) = ((c * d : ℤ) : ZMod r) := by
+  rw [pairing_exponent_form e hl hrr, pairing_exponent_form e hl hrr]
+  exact exponent_form_faithful r (e P Q) hnd hord _ _
+
+/-- non-vacuity: `ZMod 7` with multiplication as the "pairing" meets every hypothesis -/
+example : (3 : ℤ) • (1 : ZMod 7) = (10 : ℤ) • (1 : ZMod 7) ↔ ((3 : ℤ) : ZMod 7) = ((10 : ℤ) : ZMod 7) :=
+  haveI : Fact (Nat.Prime 7) := ⟨by decide⟩
+  exponent_form_faithful 7 (1 : ZMod 7) one_ne_zero (by decide +revert) 3 10
+
+end exponent_form
 
 end CL.C19
